@@ -6,6 +6,9 @@ RULE = ("case 'enc' = (frame 1..64 bytes, 1..8 pairwise non-overlapping in-frame
         "orders mixed, signed/unsigned/float32/float64; a subset of signals supplied with raw values from the raw range: "
         "boundaries, 0, +-1, random); case 'decenc' = (same frames, arbitrary payload, decode then encode). "
         "Also: all single-signal placements in frames <= 2 bytes with boundary raws (exhaustive part). "
+        "Every decode/encode is observed on objects with a history: the first use of a frame is made with its signals somewhere else "
+        "(then moved into place by assignment), each call is repeated, and once more after another detour; an encode request is also "
+        "made with one values dict used for several selector values. A result that depends on that history is a failure. "
         "Non-trivial = distinct case with at least one supplied non-zero value / non-constant payload.")
 PARTIAL = ["struct.pack rounding for floats is trusted: float values are supplied as exactly representable non-NaN patterns",
            "value-table labels in the data dict go through phys2raw (C04) and are not generated here"]
